@@ -93,6 +93,7 @@ type vfQrLedger struct {
 	last           string // kind of the call that ended the last use
 	closedAt       int    // tick index at which Close was first observed (-1: not yet)
 	closedObs      bool
+	fuzzy          bool // passive continuation: a failed call may or may not have touched it - no timing verdicts until its next use
 }
 
 type vfQrDial struct {
@@ -141,7 +142,8 @@ type vfQrRun struct {
 	lendTr   []*quic.Transport
 	remotes  []func()
 	routeAsk int
-	passive  bool // confirmation mode: never touch the real state
+	passive  bool // confirmation mode, after the deviating step: the model no longer describes the real state
+	noRepair bool // confirmation mode, at the deviating step: do not put the count right
 	viol     []vfQrViolation
 	l2       []vfQrViolation
 	retry    bool           // an allowed but different non-deterministic choice was made: run the walk again
@@ -153,6 +155,15 @@ type vfQrRun struct {
 
 func (r *vfQrRun) v(class, what string, exp, got any) {
 	r.viol = append(r.viol, vfQrViolation{class, what, exp, got})
+}
+
+// vm: a violation whose expectation comes from the model; in a passive continuation (the real state has left the model at
+// the deviating step) only the monitors that rest on the harness's own ledger are in force
+func (r *vfQrRun) vm(class, what string, exp, got any) {
+	if r.passive {
+		return
+	}
+	r.v(class, what, exp, got)
 }
 func (r *vfQrRun) d(class, what string, exp, got any) {
 	r.l2 = append(r.l2, vfQrViolation{"L2:" + class, what, exp, got})
@@ -339,6 +350,16 @@ func (r *vfQrRun) finish() {
 	if !r.cmClosed && r.cm != nil {
 		r.cm.Close()
 	}
+	for _, ru := range []*reuse{r.cm.reuseUDP4, r.cm.reuseUDP6} {
+		// (a Close that left a pool running: stop its GC goroutine so that the bubble can be left)
+		if ru != nil {
+			select {
+			case <-ru.gcStopChan:
+			default:
+				vfQrGuard(func() { ru.Close() })
+			}
+		}
+	}
 	synctest.Wait()
 	for _, tr := range r.lendTr {
 		tr.Close()
@@ -455,6 +476,7 @@ func (r *vfQrRun) use(sock int, what string) {
 	l := r.led[sock-1]
 	l.users++
 	l.idleSince = -1
+	l.fuzzy = false
 	_ = what
 }
 func (r *vfQrRun) unuse(sock int, what string) {
@@ -478,6 +500,15 @@ func (r *vfQrRun) touch(sock int, what string) {
 	l.last = what
 	if l.users == 0 {
 		l.idleSince = r.k
+	}
+}
+
+// touchAny (passive continuation): a failed call touched one of the unused transports, the harness cannot know which
+func (r *vfQrRun) touchAny() {
+	for _, l := range r.led {
+		if l.users == 0 && !l.s.isClosed() {
+			l.fuzzy = true
+		}
 	}
 }
 
@@ -518,7 +549,7 @@ func (r *vfQrRun) monitors(gcInstant bool, opName string) {
 			if !r.cmClosed || opName != "closecm" {
 				if l.users > 0 && !r.cmClosed {
 					r.v("socket-closed-in-use:"+opName, fmt.Sprintf("socket %d (%s) was closed while it has %d user(s)", id, l.s.laddr, l.users), "open", "closed")
-				} else if r.conf.Reuse && !r.cmClosed {
+				} else if r.conf.Reuse && !r.cmClosed && !l.fuzzy {
 					// Q3: only at a GC instant, after more than MaxUnused units without users
 					if !gcInstant || l.idleSince < 0 || r.k-l.idleSince <= r.conf.MaxUnused {
 						r.v("socket-closed-before-gc-period:"+opName, fmt.Sprintf("socket %d closed at tick %d (gc instant %v), without users since tick %d", id, r.k, gcInstant, l.idleSince),
@@ -541,7 +572,7 @@ func (r *vfQrRun) monitors(gcInstant bool, opName string) {
 				l.closedObs, l.closedAt = true, r.k
 				if l.users > 0 && !r.cmClosed {
 					r.v("lender-signalled-in-use:"+opName, fmt.Sprintf("lent socket %d: done signal while it has %d user(s)", id, l.users), false, true)
-				} else if !r.cmClosed && (!gcInstant || l.idleSince < 0 || r.k-l.idleSince <= r.conf.MaxUnused) {
+				} else if !r.cmClosed && !l.fuzzy && (!gcInstant || l.idleSince < 0 || r.k-l.idleSince <= r.conf.MaxUnused) {
 					r.v("lender-signalled-before-gc-period:"+opName, fmt.Sprintf("lent socket %d signalled at tick %d, unused since %d", id, r.k, l.idleSince), false, true)
 				}
 			}
@@ -557,7 +588,7 @@ func (r *vfQrRun) monitors(gcInstant bool, opName string) {
 		}
 		if r.conf.Reuse {
 			// Q4: a socket without users for more than MaxUnused does not survive a GC instant
-			if gcInstant && !closed && l.users == 0 && l.idleSince >= 0 && r.k-l.idleSince > r.conf.MaxUnused {
+			if gcInstant && !closed && !l.fuzzy && l.users == 0 && l.idleSince >= 0 && r.k-l.idleSince > r.conf.MaxUnused {
 				r.v("socket-not-released:"+l.last, fmt.Sprintf("socket %d (%s) has had no user since tick %d and survived the GC instant before tick %d (last use ended by: %s)",
 					id, l.s.laddr, l.idleSince, r.k, l.last), "closed", "open")
 				l.idleSince = -1 // report once
@@ -758,7 +789,7 @@ func (r *vfQrRun) exec(op vfh.Op) {
 					cands = append(cands, i+1)
 				}
 			}
-			if r.tie = len(cands) > 1; r.tie {
+			if r.tie = len(cands) > 1 && !r.passive; r.tie {
 				r.snapshot(cands)
 			}
 		}
@@ -785,15 +816,18 @@ func (r *vfQrRun) exec(op vfh.Op) {
 				if op.S("err") == "dup" {
 					cls = "duplicate-protocol-listener-accepted"
 				}
-				r.v(cls, fmt.Sprintf("ListenQUIC(%s:%d, %s) succeeded, expected error %s", op.S("ip"), op.I("port"), op.S("proto"), op.S("err")), op.S("err"), "ok")
+				r.vm(cls, fmt.Sprintf("ListenQUIC(%s:%d, %s) succeeded, expected error %s", op.S("ip"), op.I("port"), op.S("proto"), op.S("err")), op.S("err"), "ok")
 			} else {
-				r.v("listen-refused", fmt.Sprintf("ListenQUIC(%s:%d, %s) failed: %v", op.S("ip"), op.I("port"), op.S("proto"), err), "ok", err.Error())
+				r.vm("listen-refused", fmt.Sprintf("ListenQUIC(%s:%d, %s) failed: %v", op.S("ip"), op.I("port"), op.S("proto"), err), "ok", err.Error())
 			}
 		} else if err != nil && vfQrErrClass(err) != op.S("err") {
 			r.d("listen-error-kind", "ListenQUIC error kind", op.S("err"), err.Error())
 		}
 		if err == nil {
-			id := len(r.lns) + 1
+			id := op.I("ln")
+			if id == 0 || r.lns[id] != nil {
+				id = 1000 + len(r.lns) // (the model refused this listen)
+			}
 			sock := r.modelSock(ln.Addr().(*net.UDPAddr).Port)
 			r.lns[id], r.lnSock[id], r.lnAssoc[id], r.lnOpen[id] = ln, sock, op.S("assoc"), true
 			first := true
@@ -811,10 +845,11 @@ func (r *vfQrRun) exec(op vfh.Op) {
 			}
 			if op.B("ok") && sock != op.I("sock") {
 				// allowed when one of several dial transports was re-used (map iteration order decides which)
-				if r.tie && sock >= 1 && sock <= nBefore && op.I("sock") <= nBefore && !r.led[sock-1].listenedBefore {
+				if r.passive {
+				} else if r.tie && sock >= 1 && sock <= nBefore && op.I("sock") <= nBefore && !r.led[sock-1].listenedBefore {
 					r.retry = true
 				} else {
-					r.v("listen-on-unexpected-socket", fmt.Sprintf("listener bound to socket %d", sock), op.I("sock"), sock)
+					r.vm("listen-on-unexpected-socket", fmt.Sprintf("listener bound to socket %d", sock), op.I("sock"), sock)
 				}
 			}
 			if want := op.I("port"); want != 0 && ln.Addr().(*net.UDPAddr).Port != vfQrPort(want) {
@@ -822,12 +857,15 @@ func (r *vfQrRun) exec(op vfh.Op) {
 			}
 		} else {
 			// a failed listen may have obtained a socket / touched a transport: the use ended within the call
+			what := "listen-failed-" + vfQrErrClass(err)
 			if len(r.led) > nBefore {
 				r.led[len(r.led)-1].listened = true
-				r.touch(len(r.led), "listen-failed")
+				r.touch(len(r.led), what)
+			} else if r.passive {
+				r.touchAny()
 			} else if s := op.I("sock"); s != 0 && s <= len(r.led) {
 				r.led[s-1].listened = true
-				r.touch(s, "listen-failed")
+				r.touch(s, what)
 			}
 		}
 	case "closeln":
@@ -862,9 +900,12 @@ func (r *vfQrRun) exec(op vfh.Op) {
 		}
 	case "dialend":
 		d := r.dials[op.I("d")]
+		if d == nil {
+			break
+		}
 		nBefore := len(r.led)
 		allowed := r.allowedDial(d.src, d.assoc)
-		if r.tie = len(allowed) > 1; r.tie {
+		if r.tie = len(allowed) > 1 && !r.passive; r.tie {
 			r.snapshot(allowed)
 		}
 		r.arm(op.S("fault"))
@@ -901,7 +942,7 @@ func (r *vfQrRun) exec(op vfh.Op) {
 			return
 		}
 		if (res.err == nil) != op.B("ok") {
-			r.v("dial-result", fmt.Sprintf("%s dial: error %v", d.kind, res.err), op.S("err"), fmt.Sprint(res.err))
+			r.vm("dial-result", fmt.Sprintf("%s dial: error %v", d.kind, res.err), op.S("err"), fmt.Sprint(res.err))
 		}
 		if res.err == nil {
 			var port int
@@ -916,22 +957,27 @@ func (r *vfQrRun) exec(op vfh.Op) {
 			// Q8
 			if len(allowed) == 0 {
 				if sock <= nBefore {
-					r.v("dial-preference", fmt.Sprintf("dial (src %s, assoc %s) came back with old socket %d although none was eligible", d.src, d.assoc, sock), "new socket", sock)
+					r.vm("dial-preference", fmt.Sprintf("dial (src %s, assoc %s) came back with old socket %d although none was eligible", d.src, d.assoc, sock), "new socket", sock)
 				}
 			} else if !vfQrIn(allowed, sock) {
-				r.v("dial-preference", fmt.Sprintf("dial (src %s, assoc %s) uses socket %d", d.src, d.assoc, sock), allowed, sock)
-			} else if sock != op.I("sock") {
+				r.vm("dial-preference", fmt.Sprintf("dial (src %s, assoc %s) uses socket %d", d.src, d.assoc, sock), allowed, sock)
+			} else if sock != op.I("sock") && !r.passive {
 				r.retry = true
 			}
 		} else {
 			if len(r.led) > nBefore {
 				r.touch(len(r.led), d.kind+"-dial-failed")
+			} else if r.passive {
+				r.touchAny()
 			} else if s := op.I("sock"); s != 0 {
 				r.touch(s, d.kind+"-dial-failed")
 			}
 		}
 	case "release":
 		d := r.dials[op.I("d")]
+		if d == nil {
+			break
+		}
 		if d.conn != nil {
 			d.conn.CloseWithError(0, "")
 			synctest.Wait()
@@ -945,15 +991,18 @@ func (r *vfQrRun) exec(op vfh.Op) {
 		laddr := &net.UDPAddr{IP: r.ipOf(op.S("ip")), Port: vfQrPort(op.I("port"))}
 		pc, err := r.cm.SharedNonQUICPacketConn(r.network(), laddr)
 		if (err == nil) != op.B("ok") {
-			r.v("share-result", fmt.Sprintf("SharedNonQUICPacketConn(%s): %v", laddr, err), op.B("ok"), fmt.Sprint(err))
+			r.vm("share-result", fmt.Sprintf("SharedNonQUICPacketConn(%s): %v", laddr, err), op.B("ok"), fmt.Sprint(err))
 		}
 		if err == nil {
-			k := len(r.shares) + 1
+			k := op.I("k")
+			if k == 0 || r.shares[k] != nil {
+				k = 1000 + len(r.shares)
+			}
 			r.shares[k] = pc
 			r.shSock[k] = r.modelSock(pc.LocalAddr().(*net.UDPAddr).Port)
 			r.use(r.shSock[k], "share")
 			if op.B("ok") && r.shSock[k] != op.I("sock") {
-				r.v("share-on-unexpected-socket", "shared packet conn socket", op.I("sock"), r.shSock[k])
+				r.vm("share-on-unexpected-socket", "shared packet conn socket", op.I("sock"), r.shSock[k])
 			}
 		}
 	case "closeshare":
@@ -974,7 +1023,7 @@ func (r *vfQrRun) exec(op vfh.Op) {
 		r.lendTr = append(r.lendTr, tr)
 		r.led = append(r.led, &vfQrLedger{s: s, idleSince: -1, closedAt: -1, lent: true, done: done})
 		if err != nil {
-			r.v("lend-refused", "LendTransport failed", "ok", err.Error())
+			r.vm("lend-refused", "LendTransport failed", "ok", err.Error())
 		}
 	case "tick":
 		r.k++
@@ -1054,7 +1103,7 @@ func (r *vfQrRun) startDial(d *vfQrDial) {
 // compare the projected real state with the model state after a step; repair the counts in the main run
 func (r *vfQrRun) compare(st *vfQrSt, opName string) (deviation string) {
 	if len(r.led) != st.N {
-		r.v("socket-count", fmt.Sprintf("after %s the code under test has obtained %d sockets", opName, len(r.led)), st.N, len(r.led))
+		r.vm("socket-count", fmt.Sprintf("after %s the code under test has obtained %d sockets", opName, len(r.led)), st.N, len(r.led))
 		return ""
 	}
 	for i, l := range r.led {
@@ -1066,7 +1115,7 @@ func (r *vfQrRun) compare(st *vfQrSt, opName string) (deviation string) {
 			wantPort = 0
 		}
 		if !l.s.laddr.IP.Equal(wantIP) || (wantPort != 0 && l.s.laddr.Port != wantPort) {
-			r.v("socket-address", fmt.Sprintf("socket %d", id), fmt.Sprintf("%s:%d", wantIP, wantPort), l.s.laddr.String())
+			r.vm("socket-address", fmt.Sprintf("socket %d", id), fmt.Sprintf("%s:%d", wantIP, wantPort), l.s.laddr.String())
 		}
 		if r.conf.Reuse {
 			tr, pool := r.find(l.s)
@@ -1078,7 +1127,7 @@ func (r *vfQrRun) compare(st *vfQrSt, opName string) (deviation string) {
 				if ref != m.Ref {
 					r.d("refcount:"+opName, fmt.Sprintf("socket %d after %s", id, opName), m.Ref, ref)
 					deviation = opName
-					if !r.passive {
+					if !r.noRepair {
 						for ; ref > m.Ref; ref-- {
 							tr.DecreaseCount()
 						}
@@ -1094,7 +1143,7 @@ func (r *vfQrRun) compare(st *vfQrSt, opName string) (deviation string) {
 			}
 		} else if m.Closed && !l.s.isClosed() {
 			// single owner: the monitor has reported it; close it on behalf of the code so that the walk goes on
-			if !r.passive {
+			if !r.noRepair {
 				if so := r.findSingle(l.s); so != nil {
 					so.Close()
 				} else {
@@ -1163,8 +1212,8 @@ func vfQrRunWalk(t *testing.T, conf vfQrConf, cert tls.Certificate, w vfh.Walk, 
 		defer func() { vfQrGuard(r.finish) }()
 		for i := 0; i < upto; i++ {
 			step := w.Steps[i]
-			if passiveFrom >= 0 && i >= passiveFrom {
-				r.passive = true
+			if passiveFrom >= 0 && i == passiveFrom {
+				r.noRepair = true // the deviating step: the count is left as the code made it
 			}
 			nv := len(r.viol)
 			if p := vfQrGuard(func() { r.exec(step.Op) }); p != "" {
@@ -1179,16 +1228,29 @@ func vfQrRunWalk(t *testing.T, conf vfQrConf, cert tls.Certificate, w vfh.Walk, 
 			}
 			if r.retry {
 				out.retry = true
+				out.viol, out.l2 = r.viol, r.l2
 				return
+			}
+			if r.passive {
+				// the real state has left the model: only the ledger monitors speak from here on
+				out.executed = i + 1
+				if len(r.viol) > nv && out.step < 0 {
+					out.step = i
+				}
+				continue
 			}
 			dev := r.compare(&st, step.Op.Name())
 			if r.retry {
 				out.retry = true
+				out.viol, out.l2 = r.viol, r.l2
 				return
 			}
 			if dev != "" {
 				out.devSteps = append(out.devSteps, i)
 				out.devKinds = append(out.devKinds, dev)
+				if passiveFrom >= 0 && i >= passiveFrom {
+					r.passive = true
+				}
 			}
 			out.executed = i + 1
 			if len(r.viol) > nv && out.step < 0 {
@@ -1224,7 +1286,7 @@ func vfQrGuard(f func()) (p string) {
 // repairable: violations after which the main run still follows the model (the harness puts the state right)
 func (r *vfQrRun) repairable(vs []vfQrViolation) bool {
 	for _, v := range vs {
-		if !strings.HasPrefix(v.class, "single-owner-socket-not-closed:") && !strings.HasPrefix(v.class, "socket-not-released:") {
+		if !strings.HasPrefix(v.class, "single-owner-socket-not-closed:") {
 			return false
 		}
 	}
@@ -1263,6 +1325,10 @@ func vfQrPoolWalk(t *testing.T, res *vfh.Result, inst string, conf vfQrConf, cer
 	}
 	if out.retry {
 		res.Inc("pool_walks_not_matched_after_retries", 1)
+		for _, v := range out.viol {
+			res.AddMismatch(vfh.Mismatch{Class: v.class, What: v.what, Walk: w.Walk, Step: -1, Expected: v.exp, Got: v.got,
+				Cfg: map[string]any{"part": "pool", "instance": inst, "conf": conf, "note": "walk never matched the model's non-deterministic choices"}})
+		}
 		return
 	}
 	res.Count(1, out.executed)
@@ -1299,7 +1365,7 @@ func vfQrPoolWalk(t *testing.T, res *vfh.Result, inst string, conf vfQrConf, cer
 		}
 		var c vfQrOutcome
 		for attempt := 0; attempt < 400; attempt++ {
-			c = vfQrRunWalk(t, conf, cert, w, ds+1, ds)
+			c = vfQrRunWalk(t, conf, cert, w, len(w.Steps), ds)
 			if !c.retry {
 				break
 			}
@@ -1310,8 +1376,8 @@ func vfQrPoolWalk(t *testing.T, res *vfh.Result, inst string, conf vfQrConf, cer
 		}
 		res.Inc("pool_confirmation_runs", 1)
 		for _, v := range c.viol {
-			res.AddMismatch(vfh.Mismatch{Class: v.class, What: "[confirmation run: prefix, then time passes] " + v.what, Walk: w.Walk, Step: ds,
-				Expected: v.exp, Got: v.got, Prefix: prefix(ds + 1), Cfg: map[string]any{"part": "pool", "instance": inst, "conf": conf, "then": "ticks"}})
+			res.AddMismatch(vfh.Mismatch{Class: v.class, What: fmt.Sprintf("[confirmation run: nothing repaired from step %d on, rest of the walk, then time passes] ", ds) + v.what,
+				Walk: w.Walk, Step: c.step, Expected: v.exp, Got: v.got, Prefix: prefix(len(w.Steps)), Cfg: map[string]any{"part": "pool", "instance": inst, "conf": conf, "deviation_at": ds, "then": "ticks"}})
 		}
 	}
 }
